@@ -248,7 +248,7 @@ class Ctx:
         # stream the output: JSON cases printed by the spec go to a file (deduplicated), the rest is kept as text
         r.cases_file = self.path("tlc-%d.cases.ndjson" % idx)
         r.ncases = 0
-        keep, seen = [], set()
+        keep, seen, errs = [], set(), []
         with open(raw, errors="replace") as fi, open(r.cases_file, "w") as fc:
             for line in fi:
                 if line.startswith('"{'):
@@ -263,6 +263,8 @@ class Ctx:
                     except ValueError:
                         pass
                 elif not line.startswith(("Parsing file", "Semantic processing", "Linting of")):
+                    if line.startswith("Error: ") and len(errs) < 20:
+                        errs.append(line)       # (the behaviour printed after it can be longer than what is kept below)
                     keep.append(line)
                     if len(keep) > 6000:
                         del keep[:3000]
@@ -281,8 +283,9 @@ class Ctx:
             if m:
                 r.generated = r.distinct = int(m[-1])
         r.printed = [l for l in out.splitlines() if l.startswith("<<")]
-        mv = re.search(r"Error: Invariant (\S+) is violated", out) or re.search(r"Error: Action property (\S+) is violated", out) \
-            or re.search(r"Error: Temporal properties were violated", out)
+        eo = "".join(errs) + out
+        mv = re.search(r"Error: Invariant (\S+) is violated", eo) or re.search(r"Error: Action property (\S+) is violated", eo) \
+            or re.search(r"Error: Temporal properties were violated", eo)
         if mv:
             r.violated = mv.group(1) if mv.groups() else "temporal"
             # variables of the final state in the printed behaviour
